@@ -131,6 +131,11 @@ def run(mod=None):
             cmp('str+tok', lambda: 'x' + sym, lambda: 'x' + real)
     except ImportError:
         pass
+    from .core import SymReal
+    from fractions import Fraction
+    for fr in ('0', '1/2', '3/2', '5/2', '-1/2', '-3/2', '7/3', '-7/3', '2', '-2', '1/4', '3/4', '999999/2', '1000001/2'):
+        q = Fraction(fr)
+        cmp('round(%s)' % fr, lambda: inst._sx_call(round, SymReal(eng, z3.RealVal(fr))), lambda: round(q))
     # the regular-expression matcher over symbolic text against `re` (subjects pinned to constants)
     import re
     from . import symre
